@@ -48,14 +48,14 @@ vf64_nan()
         r.u == u, r.v == v, r.attributes.is_none(), r.weight == weight,
 //@ end
 
-//@ extract fn src/edge.rs reversed props=C01,C20 ty=Edge
+//@ extract fn src/edge.rs reversed props=C01,C15,C20 ty=Edge
 //@ rewrite
 -> Edge<T, A>
 //@ with
 -> (r: Edge<T, A>)
 //@ spec
     ensures
-        // [C01.edge.reversed_flips]
+        // [C01.edge.reversed_flips, C15.edge.reversed_flips_keeps_weight_and_attributes]
         r.u == self.v, r.v == self.u, r.attributes == self.attributes, r.weight == self.weight,
 //@ end
 
@@ -546,7 +546,7 @@ for node in it: nodes
         forall|i: int| 0 <= i < r@.len() ==> **(#[trigger] r@[i]) == *self.nodes_vec@[i],
 //@ end
 
-//@ extract fn src/graph/convert.rs reverse props=C06,C20 ty=Graph
+//@ extract fn src/graph/convert.rs reverse props=C06,C15,C20 ty=Graph
 //@ rewrite
 -> Result<Graph<T, A>, Error>
 //@ with
@@ -559,24 +559,30 @@ vclone_nodes(self.get_all_nodes());
 self
             .get_all_edges()
             .into_iter()
-            .map(|edge| edge.clone().reversed().into())
-            .collect();
+            .map(|edge|
 //@ with
-vreverse_edges(self.get_all_edges());
-//@ spec
-    requires
-        key_model_ok::<T>(),
-    ensures
-        // [C06.reverse.guard]
-        !self.specs.directed ==> is_err_kind(r, ErrorKind::WrongMethod),
-        // [C06.reverse.rebuilds_from_same_nodes_and_flipped_edges]
-        self.specs.directed ==> reverse_outcome(*self, r),
-        self.specs.directed && r.is_ok() ==> r.unwrap().wf_nodes() && r.unwrap().wf_estore() && r.unwrap().wf_rows() && r.unwrap().specs == self.specs,
-//@ before Graph::new_from_nodes_and_edges(new_nodes, new_edges, self.specs.clone())
+vmap_collect(self.get_all_edges(), |edge: &Arc<Edge<T, A>>| -> (o: Arc<Edge<T, A>>) ensures *o == spec_reversed(**edge) {
+//@ rewrite
+)
+            .collect();
+        Graph::new_from_nodes_and_edges(
+//@ with
+ });
         proof {
             assert(node_names_of(new_nodes@) =~= node_names_of(self.nodes_vec@));
             assert(edges_of(new_edges@) =~= Seq::new(self.all_edges_seq().len(), |i: int| spec_reversed(self.all_edges_seq()[i])));
         }
+        Graph::new_from_nodes_and_edges(
+//@ spec
+    requires
+        key_model_ok::<T>(),
+    ensures
+        // [C06.reverse.guard, C15.reverse.directed_only]
+        !self.specs.directed ==> is_err_kind(r, ErrorKind::WrongMethod),
+        // [C06.reverse.rebuilds_from_same_nodes_and_flipped_edges, C15.reverse.same_nodes_every_edge_flipped_weights_kept]
+        self.specs.directed ==> reverse_outcome(*self, r),
+        // [C15.reverse.result_is_well_formed_same_specs]
+        self.specs.directed && r.is_ok() ==> r.unwrap().wf_nodes() && r.unwrap().wf_estore() && r.unwrap().wf_rows() && r.unwrap().specs == self.specs,
 //@ end
 
 //@ extract fn src/graph/ensure.rs ensure_directed props=C02,C20 ty=Graph
@@ -892,6 +898,91 @@ vcast_usize_f64(self.nodes_vec.len())
         self.specs.directed && self.knows(node_name) ==> r.is_ok() && self.lists_nodes_of(self.pred_set(self.nodes_map@[node_name]), r.unwrap()@),
 //@ end
 
+//@ extract fn src/graph/subgraph.rs get_subgraph props=C15,C20 ty=Graph
+//@ rewrite
+-> Graph<T, A>
+//@ with
+-> (r: Graph<T, A>)
+//@ rewrite
+nodes.iter().cloned().collect();
+//@ with
+vslice_to_hashset(nodes);
+//@ rewrite
+let new_nodes = self
+            .get_all_nodes()
+            .into_iter()
+            .filter(|n|
+//@ with
+let all_nodes_v = self.get_all_nodes();
+        let ghost av = all_nodes_v@;
+        let node_pred = |n: &&Arc<Node<T, A>>| -> (b: bool) ensures b == nodes_set@.contains(n.name) {
+//@ rewrite
+)
+            .cloned()
+            .collect::<Vec<Arc<Node<T, A>>>>();
+//@ with
+ };
+        let new_nodes = vfilter_cloned_collect(all_nodes_v, node_pred);
+//@ rewrite
+let new_edges = self
+            .get_all_edges()
+            .into_iter()
+            .filter(|e|
+//@ with
+let all_edges_v = self.get_all_edges();
+        let ghost ae = all_edges_v@;
+        let edge_pred = |e: &&Arc<Edge<T, A>>| -> (b: bool) ensures b == (nodes_set@.contains(e.u) && nodes_set@.contains(e.v)) {
+//@ rewrite
+)
+            .cloned()
+            .collect::<Vec<Arc<Edge<T, A>>>>();
+//@ with
+ };
+        let new_edges = vfilter_cloned_collect(all_edges_v, edge_pred);
+//@ spec
+    requires
+        key_model_ok::<T>(),
+        // rebuilding a graph from the selected nodes and edges does not fail
+        forall|kn: Seq<int>, ke: Seq<int>, rr: Result<Graph<T, A>, Error>| #[trigger] subgraph_outcome(*self, nodes@.to_set(), kn, ke, rr) ==> rr.is_ok(),
+    ensures
+        // [C15.subgraph.induced_nodes_in_order_and_exactly_the_edges_between_them]
+        // the result is new_from_nodes_and_edges(the nodes whose name is in `nodes`, in their original order; exactly the stored
+        // edges with both ends in `nodes`, in get_all_edges() order; the same specs)
+        exists|kn: Seq<int>, ke: Seq<int>| #[trigger] subgraph_outcome(*self, nodes@.to_set(), kn, ke, Ok(r)),
+        // [C15.subgraph.result_is_well_formed_same_specs]
+        r.wf_nodes() && r.wf_estore() && r.wf_rows() && r.specs == self.specs,
+//@ before Graph::new_from_nodes_and_edges(new_nodes, new_edges, self.specs.clone()).unwrap()
+        let ghost kn = choose|kn: Seq<int>| #[trigger] filter_picks(av, new_nodes@, kn, node_pred);
+        let ghost ke = choose|ke: Seq<int>| #[trigger] filter_picks(ae, new_edges@, ke, edge_pred);
+        let ghost sel = nodes@.to_set();
+        proof {
+            assert(filter_picks(av, new_nodes@, kn, node_pred));
+            assert(filter_picks(ae, new_edges@, ke, edge_pred));
+            let names = node_names_of(self.nodes_vec@);
+            let alle = self.all_edges_seq();
+            assert forall|k: int| 0 <= k < kn.len() implies sel.contains(#[trigger] names[kn[k]]) by {
+                assert(call_ensures(node_pred, (&av[kn[k]],), true));
+            }
+            assert forall|i: int| 0 <= i < names.len() && sel.contains(#[trigger] names[i]) implies kn.contains(i) by {
+                assert(kn.contains(i) || call_ensures(node_pred, (&av[i],), false));
+            }
+            assert forall|k: int| 0 <= k < ke.len() implies sel.contains((#[trigger] alle[ke[k]]).u) && sel.contains(alle[ke[k]].v) by {
+                assert(call_ensures(edge_pred, (&ae[ke[k]],), true));
+            }
+            assert forall|i: int| 0 <= i < alle.len() && sel.contains((#[trigger] alle[i]).u) && sel.contains(alle[i].v) implies ke.contains(i) by {
+                assert(ke.contains(i) || call_ensures(edge_pred, (&ae[i],), false));
+            }
+            assert(node_names_of(new_nodes@) =~= Seq::new(kn.len(), |k: int| names[kn[k]]));
+            assert(edges_of(new_edges@) =~= Seq::new(ke.len(), |k: int| alle[ke[k]]));
+            assert(picks(names, kn, |x: T| sel.contains(x)));
+            assert(picks(alle, ke, |e: Edge<T, A>| sel.contains(e.u) && sel.contains(e.v)));
+            assert forall|rr: Result<Graph<T, A>, Error>| #[trigger] nfne_rel(node_names_of(new_nodes@), edges_of(new_edges@), self.specs, rr)
+                implies rr.is_ok() && subgraph_outcome(*self, sel, kn, ke, rr) by {
+                assert(subgraph_outcome(*self, sel, kn, ke, rr));
+            }
+        }
+//@ end
+
 //@ extract fn src/graph/query.rs get_node_by_index props=C02,C20 ty=Graph
 //@ rewrite
 -> Option<&Arc<Node<T, A>>>
@@ -913,11 +1004,33 @@ vcast_usize_f64(self.nodes_vec.len())
 pub fn vclone_nodes<T: Send + Sync, A>(v: Vec<&Arc<Node<T, A>>>) -> (r: Vec<Arc<Node<T, A>>>)
     ensures r@.len() == v@.len(), forall|i: int| 0 <= i < r@.len() ==> *(#[trigger] r@[i]) == **v@[i],
 { v.into_iter().cloned().collect() }
+// R-ext (A5): `v.into_iter().map(f).collect()` targets a local declaration ASSUMED to apply f to every element in order; the closure f
+// stays in place and is verified against the postcondition written on it
 #[verifier::external_body]
-pub fn vreverse_edges<T, A>(v: Vec<&Arc<Edge<T, A>>>) -> (r: Vec<Arc<Edge<T, A>>>)
-    where T: Eq + Clone + PartialOrd + Ord + Hash + Send + Sync + Display, A: Clone,
-    ensures r@.len() == v@.len(), forall|i: int| 0 <= i < r@.len() ==> *(#[trigger] r@[i]) == spec_reversed(**v@[i]),
-{ v.into_iter().map(|edge| edge.clone().reversed().into()).collect() }
+pub fn vmap_collect<I, O, F: FnMut(I) -> O>(v: Vec<I>, f: F) -> (r: Vec<O>)
+    requires forall|i: int| 0 <= i < v@.len() ==> call_requires(f, (#[trigger] v@[i],)),
+    ensures r@.len() == v@.len(), forall|i: int| 0 <= i < r@.len() ==> call_ensures(f, (v@[i],), #[trigger] r@[i]),
+{ v.into_iter().map(f).collect() }
+
+// R-ext (A5): `v.into_iter().filter(f).cloned().collect()` targets a local declaration ASSUMED to keep, in order, clones of exactly
+// the elements for which f answers true (`keep` lists their positions; an element that is not kept has `false` as an answer of f);
+// the closure f stays in place and is verified against the postcondition written on it
+pub open spec fn filter_picks<Y, F: FnMut(&&Arc<Y>) -> bool>(v: Seq<&Arc<Y>>, r: Seq<Arc<Y>>, keep: Seq<int>, f: F) -> bool {
+    &&& keep.len() == r.len()
+    &&& forall|a: int, b: int| 0 <= a < b < keep.len() ==> keep[a] < keep[b]
+    &&& forall|k: int| 0 <= k < keep.len() ==> 0 <= #[trigger] keep[k] < v.len() && *r[k] == **v[keep[k]] && call_ensures(f, (&v[keep[k]],), true)
+    &&& forall|i: int| 0 <= i < v.len() ==> keep.contains(i) || call_ensures(f, (&#[trigger] v[i],), false)
+}
+#[verifier::external_body]
+pub fn vfilter_cloned_collect<Y, F: FnMut(&&Arc<Y>) -> bool>(v: Vec<&Arc<Y>>, f: F) -> (r: Vec<Arc<Y>>)
+    requires forall|i: int| 0 <= i < v@.len() ==> call_requires(f, (&#[trigger] v@[i],)),
+    ensures exists|keep: Seq<int>| #[trigger] filter_picks(v@, r@, keep, f),
+{ v.into_iter().filter(f).cloned().collect() }
+// R-ext (A5): `nodes.iter().cloned().collect::<HashSet<T>>()`: ASSUMED to build the set of the slice's elements
+#[verifier::external_body]
+pub fn vslice_to_hashset<T: Eq + Hash + Clone>(v: &[T]) -> (r: HashSet<T>)
+    ensures r@ == v@.to_set(),
+{ v.iter().cloned().collect() }
 
 // ---- case split used to verify add_edge (one Verus run per case) ----
 pub open spec fn add_edge_case<T: Eq + PartialOrd + Send + Sync, A: Clone>(g: Graph<T, A>, directed: bool, multi: bool) -> bool {
